@@ -185,7 +185,8 @@ def _shard_hyp(rec, arg):
     seed, n = arg
 
     def t(p, ins):
-        p = repair(p)
+        # reading a variable that was never set is a NameError: give the two generated names a value first
+        p = [["num", "0"], ["set", "a"], ["num", "0"], ["set", "b"]] + repair(p)
         _do(rec, p, tuple(ins), ["generated", f"depth{progs.ast_depth(p)}"])
         if len(rec.samples) < 5 and progs.ast_depth(p) >= 2:
             rec.sample({"program": progs.render(p), "inputs": list(ins)})
@@ -198,7 +199,7 @@ def run(rec, tier, seed):
     ns = campaign.NCPU
     campaign.parallel(rec, _shard_exh, [(s, ns) for s in range(ns)])
     rec.exhaustive.append(f"{len(BODIES)} early-exit/printing bodies x {len(WRAPS)}^2 enclosing constructs")
-    n = 500 if quick else 20000
+    n = 400 if quick else 20000
     campaign.parallel(rec, _shard_hyp, [(seed * 1000 + i, n) for i in range(ns)])
 
 
